@@ -265,11 +265,32 @@ def _r5(ctx):
         f = F.function(hn)
         if f is None:
             raise AnalysisError(f'FParser2IR.{hn} vanished')
+        # the parallel sequences: `values` is built from the CASE / type-guard statements, `bodies` from the statements between them
         blocks = [st for st in ast.walk(f.node) if isinstance(st, ast.If) and isinstance(st.test, ast.Compare)
-                  and isinstance(st.test.ops[0], ast.In) and ast.unparse(st.test.comparators[0]) == 'values']
+                  and isinstance(st.test.ops[0], ast.In) and isinstance(st.test.comparators[0], ast.Name)
+                  and isinstance(st.test.left, (ast.Constant, ast.Tuple))]
         if len(blocks) != 1:
-            raise AnalysisError(f'{hn}: default-extraction block (`if <default> in values:`) not found')
+            raise AnalysisError(f'{hn}: default-extraction block (`if <default> in <values>:`) not found')
         blk = blocks[0]
+        vname = blk.test.comparators[0].id
+        stores = [t.id for st in ast.walk(blk) for t in ast.walk(st) if isinstance(t, ast.Name) and isinstance(t.ctx, ast.Store)]
+        # the other sequence re-bound in the block (besides the values and scalars) and the extracted default body
+        seqs = [nm for nm in dict.fromkeys(stores) if nm != vname and any(
+            isinstance(a, ast.Assign) and any(isinstance(t, ast.Name) and t.id == nm or
+                                              (isinstance(t, (ast.Tuple, ast.List)) and any(isinstance(e, ast.Starred) and isinstance(e.value, ast.Name)
+                                                                                            and e.value.id == nm for e in t.elts))
+                                              for t in a.targets)
+            and (isinstance(a.value, ast.BinOp) or isinstance(a.value, ast.Call) or isinstance(a.value, ast.Name)) and nm in ast.unparse(a.value)
+            for a in ast.walk(blk))]
+        if len(seqs) != 1:
+            raise AnalysisError(f'{hn}: the sequence of bodies re-bound in the default-extraction block is not unique ({seqs})')
+        bname = seqs[0]
+        others = [nm for nm in dict.fromkeys(stores) if nm not in (vname, bname)]
+        enames = [nm for nm in others if any(isinstance(a, ast.Assign) and ast.unparse(a.value) == '()' and
+                                            any(isinstance(t, ast.Name) and t.id == nm for t in a.targets) for a in ast.walk(blk))]
+        if len(enames) != 1:
+            raise AnalysisError(f'{hn}: the extracted default body (assigned `()` in the else branch) is not unique ({enames})')
+        ename = enames[0]
         try:
             marker = ast.literal_eval(blk.test.left)
         except ValueError:
@@ -280,7 +301,7 @@ def _r5(ctx):
             for p in list(range(n)) + [None]:
                 values = tuple(marker if i == p else f'v{i}' for i in range(n))
                 bodies = tuple(f'b{i}' for i in range(n))
-                env = {'values': values, 'bodies': bodies}
+                env = {vname: values, bname: bodies}
                 try:
                     run_block([blk], env)
                 except Unknown as u:
@@ -289,11 +310,11 @@ def _r5(ctx):
                     bad = bad or (n, p, f'raises {exc!r}')
                     continue
                 want_pairs = tuple((v, b) for i, (v, b) in enumerate(zip(values, bodies)) if i != p)
-                got_pairs = tuple(zip(tuple(env['values']), tuple(env['bodies'])))
+                got_pairs = tuple(zip(tuple(env[vname]), tuple(env[bname])))
                 want_else = bodies[p] if p is not None else ()
-                if (got_pairs != want_pairs or tuple(env['else_body']) != tuple(want_else) if p is None else
-                        got_pairs != want_pairs or env['else_body'] != want_else) or len(env['values']) != len(env['bodies']):
-                    bad = bad or (n, p, f"values={env['values']} bodies={env['bodies']} else_body={env['else_body']!r}")
+                if (got_pairs != want_pairs or tuple(env[ename]) != tuple(want_else) if p is None else
+                        got_pairs != want_pairs or env[ename] != want_else) or len(env[vname]) != len(env[bname]):
+                    bad = bad or (n, p, f"values={env[vname]} bodies={env[bname]} else_body={env[ename]!r}")
         inst = f'FParser2IR.{hn}:default-extraction'
         if bad:
             n_, p_, got = bad
